@@ -58,7 +58,12 @@ def gen_history(t, nops, pool, dimsets, link, bulk_big=False, removes=True, big_
         elif k == 'store_many':
             n = t.randint(2, 5)
             cs = _distinct(t, pool, n)
-            ops.append(['store_many', d, [[c, gen_payload(t, link, big_payloads)] for c in cs]])
+            items = [[c, gen_payload(t, link, big_payloads)] for c in cs]
+            if t.chance(0.15):
+                # one address twice in one bulk store (with different bytes): the later list entry is the latest store
+                i = t.choice(len(items))
+                items.insert(t.randint(i + 1, len(items)), [items[i][0], gen_payload(t, link, big_payloads)])
+            ops.append(['store_many', d, items])
         elif k == 'load':
             ops.append(['load', t.pick(pool), d])
         elif k == 'load_many':
@@ -227,13 +232,15 @@ class Runner(object):
             _, dims, items = op
             tiles = [C.make_tile(c, C.payload(p)) for c, p in items]
             new = {}
+            alts = {}
             for c, p in items:
                 k = akey(c, dims)
                 if k in self.model:
                     self.overwrites += 1
                 new[k] = C.payload(p)
+                alts.setdefault(k, []).append(new[k])
             self._guard(lambda: cache.store_tiles(tiles, dimensions=dims) if dims is not None
-                        else cache.store_tiles(tiles), new)
+                        else cache.store_tiles(tiles), new, alts)
             self.sweep(what)
         elif kind == 'remove':
             _, coord, dims = op
@@ -319,7 +326,7 @@ class Runner(object):
         else:
             raise ValueError(op)
 
-    def _guard(self, fn, new):
+    def _guard(self, fn, new, alts=None):
         """run a mutating call; new: {key: bytes|None}.  An injected I/O fault (marked OSError) relaxes
         exactly the touched addresses to {old, new, missing}."""
         self.in_mutation = True
@@ -344,6 +351,9 @@ class Runner(object):
                 s = self.failed_keys.setdefault(k, set())
                 s.add(v)
                 s.add(self.model.get(k))
+                # (an address given twice in one bulk store: the call may have got as far as the earlier entry)
+                for v2 in (alts or {}).get(k, ()):
+                    s.add(v2)
             return False
         finally:
             self.in_mutation = False
